@@ -1014,6 +1014,82 @@ theorem rescale_registration (im : Img2) {sx sy : Rat} {r : Rounding} {p : Plan2
     linarith
 
 
+/-! ### PROPERTY (integer dtypes): registration up to the rounding of the stored value -/
+
+/-- how an integer dtype stores a sampled value (contract on scipy's cast of the output array): the nearest
+integer — at most half a level away — and an integer is stored as it is -/
+structure IntStore (rnd : Rat → Int) : Prop where
+  near : ∀ x : Rat, |((rnd x : Int) : Rat) - x| ≤ 1 / 2
+  fix : ∀ z : Int, rnd (z : Rat) = z
+
+/-- `np.round` (half to even) is such a rule -/
+theorem roundHalfEven_store : IntStore roundHalfEven := by
+  constructor
+  · intro x
+    have h1 : (x.floor : Rat) ≤ x := Rat.floor_le x
+    have h2 : x - 1 < (x.floor : Rat) := Rat.lt_floor
+    unfold roundHalfEven
+    simp only
+    split_ifs with ha hb hc
+    · rw [abs_le]; constructor <;> linarith
+    · push_cast; rw [abs_le]; constructor <;> linarith
+    · rw [abs_le]; constructor <;> linarith
+    · push_cast; rw [abs_le]; constructor <;> linarith
+  · intro z
+    unfold roundHalfEven
+    simp only [Rat.floor_intCast, sub_self]
+    norm_num
+
+/-- the image as an integer dtype stores it -/
+def storeImg (rnd : Rat → Int) (im : Img2) : Img2 := ⟨im.h, im.w, fun i j => ((rnd (im.px i j) : Int) : Rat)⟩
+
+/-- **integer dtypes, every interpolation order**: the result of an operation on an integer image is the exact result
+rounded pixel by pixel; read at a returned landmark on the grid it is within half a level of the source sampled — with
+the order of the warp — at the original landmark -/
+theorem int_registration_grid (rnd : Rat → Int) (hr : IntStore rnd) (p : Plan2) (hdet : p.T.det ≠ 0)
+    (spl : Nat → Mode → Sampler2) (cls : ImgClass) (hcls : cls ≠ .boolean) (k : Nat) (im mk : Img2) (lms : List V2)
+    (S₂ : Sampler2) (hS₂ : Interpolating S₂) (l : V2) (i j : Int)
+    (hi0 : 0 ≤ i) (hi1 : i ≤ (p.h : Int) - 1) (hj0 : 0 ≤ j) (hj1 : j ≤ (p.w : Int) - 1)
+    (hgrid : p.landmark l = gridPt2 i j) :
+    |S₂ (storeImg rnd (p.exec spl cls k im mk lms).px) (p.landmark l) - samplerOf spl (p.effOrder k) p.mode im l| ≤ 1 / 2 := by
+  have hT : p.T.apply (gridPt2 i j) = l := by rw [← hgrid]; exact Aff2.apply_inv_apply hdet l
+  have hdim : (storeImg rnd (p.exec spl cls k im mk lms).px).h = p.h ∧ (storeImg rnd (p.exec spl cls k im mk lms).px).w = p.w := by
+    cases cls <;> exact ⟨rfl, rfl⟩
+  rw [hgrid, hS₂ _ i j hi0 (by rw [hdim.1]; exact hi1) hj0 (by rw [hdim.2]; exact hj1)]
+  show |((rnd ((p.exec spl cls k im mk lms).px.px i j) : Int) : Rat) - _| ≤ 1 / 2
+  rw [exec_pixel_any_order p spl cls hcls k im mk lms i j, hT]
+  exact hr.near _
+
+/-- order 0 on an integer image with an integer fill value copies integers: nothing is lost by the integer store,
+registration at grid landmarks is exact -/
+theorem int_registration_grid_order0 (rnd : Rat → Int) (hr : IntStore rnd) (p : Plan2) (hdet : p.T.det ≠ 0)
+    (spl : Nat → Mode → Sampler2) (cls : ImgClass) (hcls : cls ≠ .boolean) (k : Nat) (hk : p.effOrder k = 0)
+    (im mk : Img2) (lms : List V2) (hint : ∀ i j, ∃ z : Int, im.px i j = z)
+    (hcv : ∀ cv, p.mode = .constant cv → ∃ z : Int, cv = z)
+    (S₂ : Sampler2) (hS₂ : Interpolating S₂) (l : V2) (i j : Int)
+    (hi0 : 0 ≤ i) (hi1 : i ≤ (p.h : Int) - 1) (hj0 : 0 ≤ j) (hj1 : j ≤ (p.w : Int) - 1)
+    (hgrid : p.landmark l = gridPt2 i j) :
+    S₂ (storeImg rnd (p.exec spl cls k im mk lms).px) (p.landmark l) = samplerOf spl 0 p.mode im l := by
+  have hT : p.T.apply (gridPt2 i j) = l := by rw [← hgrid]; exact Aff2.apply_inv_apply hdet l
+  have hdim : (storeImg rnd (p.exec spl cls k im mk lms).px).h = p.h ∧ (storeImg rnd (p.exec spl cls k im mk lms).px).w = p.w := by
+    cases cls <;> exact ⟨rfl, rfl⟩
+  rw [hgrid, hS₂ _ i j hi0 (by rw [hdim.1]; exact hi1) hj0 (by rw [hdim.2]; exact hj1)]
+  show ((rnd ((p.exec spl cls k im mk lms).px.px i j) : Int) : Rat) = _
+  rw [exec_pixel_any_order p spl cls hcls k im mk lms i j, hT, hk]
+  -- the nearest-neighbour sample is a source pixel or the fill value: an integer
+  have hz : ∃ z : Int, samplerOf spl 0 p.mode im l = z := by
+    simp only [samplerOf, Img2.sample]
+    cases hm : p.mode with
+    | nearest => simp only [Img2.core, axis1]; exact hint _ _
+    | constant cv =>
+      simp only
+      split_ifs
+      · simp only [Img2.core, axis1]; exact hint _ _
+      · exact hcv cv hm
+  obtain ⟨z, hz⟩ := hz
+  rw [hz, hr.fix z]
+
+
 /-! ### non-vacuity: the hypotheses are satisfiable on concrete values and the statements compute -/
 
 /-- a stand-in for the spline orders: any interpolating sampler will do (here: bilinear) -/
@@ -1161,5 +1237,10 @@ example : ∀ p, rescalePlan2 4 9 (1/2) (1/2) .ceil = .ok p → inR p.h (p.landm
 example : (rescalePlan2 6 7 (3/2) (3/2) .ceil).toOption.map
       (fun p => (p.landmark ⟨2, 3⟩, (p.run .linear exIm).sample .linear .nearest (p.landmark ⟨2, 3⟩)))
     = some (⟨16/5, 19/4⟩, 1 + 2 * 2 + 3 * 3) := by decide +kernel
+
+-- integer dtypes: `np.round` is an admissible store; an image of integers is stored unchanged
+example : IntStore roundHalfEven := roundHalfEven_store
+example : (storeImg roundHalfEven ⟨2, 2, fun i j => (i : Rat) / 2 + j⟩).px 1 1 = 2 ∧
+    (storeImg roundHalfEven ⟨2, 2, fun i j => (i : Rat) / 2 + j⟩).px 1 0 = 0 := by decide +kernel
 
 end MenpoModel.C01
